@@ -849,7 +849,7 @@ def run(chk):
     # tie to the source by regeneration: the listed definitions are re-translated from /repo by py2coq on
     # every run and PROVED equal to the hand models (coq/props/TIE.v), plus a translator self-check
     from props._tie import run_tie
-    run_tie(chk, ['names', 'graphs'])
+    run_tie(chk, ['names', 'graphs', 'glue'])
 
 
 def check_findings_files(chk) -> bool:
